@@ -26,7 +26,12 @@ pub trait Latch<P>: Deref<Target = P> {}
 
 impl<P> ReadLatch<P> {
     pub(crate) fn new(lock: &Arc<RwLock<P>>) -> Self {
-        Self(lock.read_arc())
+        // A statement may latch a page for reading while it already holds a read latch on it
+        // (a scan keeps its pages latched and fetches rows through the tree again). A plain
+        // `read_arc` blocks behind a waiting writer, which in turn waits for the first latch:
+        // reader and writer of one page deadlock. The recursive variant only waits while a
+        // writer actually holds the page.
+        Self(lock.read_arc_recursive())
     }
 }
 
